@@ -87,7 +87,7 @@ def cases(rng, tier):
         out.append({"wgsl": w, "family": "same_include_path", "opts": {}, "include": "shaders/pass.wgsl", "truth": (size, ["fragment"]) if ty else None})
     # a module without any entry point (an include-style file): the range is still there, for no stage
     for ty, size in rng.sample(PC_TYPES, 6):
-        out.append({"wgsl": EXTRA + "var<push_constant> pc: %s;\nfn helper() -> f32 { return 1.0; }\n" % ty,
+        out.append({"wgsl": W.PRELUDE + EXTRA + "var<push_constant> pc: %s;\nfn helper() -> f32 { return 1.0; }\n" % ty,
                     "family": "pc_no_entry_points", "opts": {}, "truth": (size, [])})
     return out
 
